@@ -48,12 +48,24 @@ pub fn gen_pair(rng: &mut Rng) -> Pair {
         9 | 10 => crate::model::magic::gen_delta(rng),
         _ => rng.range_i128(lo, hi) - i,
     };
-    let j = (i + delta).clamp(lo, hi);
+    let mut i = i;
+    let mut j = (i + delta).clamp(lo, hi);
+    let mut alias: Option<&'static str> = None;
+    if rng.chance(1, 8) {
+        // representation relatives (see magic::alias_relative): pairs a folded key / a bit trick would confuse
+        if let Some((i2, j2, tag)) = crate::model::magic::alias_relative(rng, i, lo, hi) {
+            i = i2;
+            j = j2;
+            alias = Some(tag);
+        }
+    }
     let o1 = gen_offset_any(rng);
     let o2 = if rng.chance(1, 4) { o1 } else { gen_offset_any(rng) };
     let wild = o1.unsigned_abs() > 86_399 || o2.unsigned_abs() > 86_399;
     let (i, j) = if wild { (i.clamp(MIN_INSTANT + 30_000 * D, MAX_INSTANT - 30_000 * D), j.clamp(MIN_INSTANT + 30_000 * D, MAX_INSTANT - 30_000 * D)) } else { (i, j) };
-    let class = if i == j {
+    let class = if let Some(t) = alias {
+        t
+    } else if i == j {
         "pair/equal-instant"
     } else if (i < 0) != (j < 0) {
         "pair/straddles-0001-01-01"
